@@ -14,6 +14,7 @@ through a `Vec` that is filled with `push` / `extend` and handed to `Command::ar
 (`args(iter.flat_map(..))`, `extend(flag.then(..))`, `Option::into_iter`) are decomposed into their elements.
 """
 import functools
+import re as _re
 
 from .lib import iters
 from .lib.effects import Effects, Eff, Link, guards_of
@@ -369,9 +370,27 @@ class SinkEffects(Effects):
     """Effects whose vocabulary is the argv sinks (Command::new/arg/args, Vec::push/extend); `Extend::extend` is an
     iterator consumer for the library, so the sinks are intercepted before the generic expansion (local workaround)"""
 
+    _INTO = _re.compile(r'^<(.+) as std::convert::Into<std::process::Command>>::into$')
+
+    def _from_impl(self, c):
+        """`x.into()` with the target type Command is `Command::from(x)` (std's blanket impl): the workspace conversion
+        it enters (local workaround; lib/mir.callee_fns does not look through the blanket `Into` impl)"""
+        for n in (c.res, c.full, c.name):
+            m = self._INTO.match(n or '')
+            if m:
+                for f in self.prog.fns.values():
+                    if f.path.endswith('<impl std::convert::From<%s> for std::process::Command>::from' % m.group(1)):
+                        return f
+        return None
+
     def _expand_call1(self, fn, c, forall, mode, mapping, chain, stack, out):
         k = sink_kind(c)
         if k is None:
+            g = self._from_impl(c) if not c.indirect and (c.decl or '').endswith('::Into::into') else None
+            if g is not None:
+                m = self.call_mapping(fn, c, g, mapping)
+                out.extend(self.expand(g, mode, None, m, chain + (Link(c, mapping),), stack))
+                return
             return Effects._expand_call1(self, fn, c, forall, mode, mapping, chain, stack, out)
         args = tuple(self.subst(self.slicer.operand(fn, a), mapping) for a in c.args)
         ef = Eff(k, None, c, chain, mode == 'must', self.subst(forall, mapping) if forall is not None else None, args)
@@ -480,6 +499,8 @@ def _vec_other_writers(fn, m):
 
 def _struct_field_types(prog, fn):
     ty = fn.args[0] if fn.args else None
+    if ty and ty.startswith('&'):
+        ty = ty[5:] if ty.startswith('&mut ') else ty[1:]      # a conversion that only borrows the struct
     try:
         adt = prog.adt(ty)
     except Exception:
@@ -497,6 +518,42 @@ def _is_elem_chain(elem, fa):
     return False
 
 
+ONE_ELEMENT = ('std::slice::from_ref', 'core::slice::from_ref', 'std::array::from_ref', 'core::array::from_ref', 'std::slice::from_mut', 'std::array::from_mut')
+
+
+def norm_iterable(v, depth=0):
+    """v with `slice::from_ref(x)` / `array::from_ref(x)` rewritten to the one-element literal `[x]` they denote, so that
+    the iterator algebra names the element itself (local workaround: lib/iters.alts does not know these sources)"""
+    if not isinstance(v, tuple) or not v or depth > 40:
+        return v
+    if v[0] == 'call' and v[1] in ONE_ELEMENT and len(v[2]) == 1:
+        return ('array', (norm_iterable(v[2][0], depth + 1),))
+    if not any(isinstance(x, tuple) for x in v):
+        return v
+    return tuple(norm_iterable(x, depth + 1) if isinstance(x, tuple) else x for x in v)
+
+
+def norm_elements(sl, v, depth=0):
+    """v with `next()` of a decomposable iteration replaced by the element the iterator algebra names: the element of
+    `xs.iter().map(f)` is `f(element of xs)`, that of `[x]` is x.  A helper that loops over an iterable parameter sees
+    the caller's pipeline only after substitution, so the effect expansion leaves `next(<pipeline>)` in the values
+    (local workaround; lib/effects decomposes loop collections in the helper's own terms only).  Filtered / truncated /
+    multi-alternative iterations are left as they are."""
+    if not isinstance(v, tuple) or not v or depth > 40:
+        return v
+    if v[0] == 'unwrap' and isinstance(v[1], tuple) and v[1] and v[1][0] == 'call' and v[1][1] == IT + 'next' and len(v[1][2]) == 1:
+        coll = norm_iterable(v[1][2][0])
+        al = iters.alts(sl, coll)
+        if len(al) == 1 and not iters.trivial(al, coll) and not al[0][2]:
+            elem, fa, _ = al[0]
+            if canon(elem) != canon(v):
+                return norm_elements(sl, elem, depth + 1) if fa is None else elem
+        return v
+    if not any(isinstance(x, tuple) for x in v):
+        return v
+    return tuple(norm_elements(sl, x, depth + 1) if isinstance(x, tuple) else x for x in v)
+
+
 class _Contribution:
     def __init__(self, value, loop, guards, splat=False, note=None):
         self.value, self.loop, self.guards, self.splat, self.note = value, loop, guards, splat, note
@@ -504,7 +561,7 @@ class _Contribution:
 
 def elements(sl, fn, v, ftypes):
     """the argv words an iterable argument contributes, in order: [_Contribution]"""
-    v0 = strip(v)
+    v0 = strip(norm_iterable(v))
     if v0[0] == 'array':
         return [_Contribution(x, None, []) for x in v0[1]]
     out = []
@@ -596,9 +653,20 @@ def argv_model(prog, sl, fn):
                 note = 'inside a loop over an unknown iterator'
                 continue
             if kind == 'mir' and not iters.trivial(iters.alts(sl, coll), coll):
-                coll = e.forall      # unrolled row by row: the row's own collection, if any
-                if coll is None:
-                    continue
+                if e.forall is not None:
+                    coll = e.forall      # unrolled row by row: the row's own collection
+                else:
+                    # a pipeline that became visible only after substitution (`fn options(values) { for v in values
+                    # {..} }` called with `xs.iter().map(f)`): the loop visits the collection the pipeline ranges over
+                    al = iters.alts(sl, norm_iterable(coll))
+                    if not al or all(fa is None for _, fa, _ in al):
+                        continue         # literal rows: the words are judged one by one
+                    if len(al) != 1:
+                        note = 'inside a loop over %s' % vstr(coll)[:60]
+                        continue
+                    if al[0][2]:
+                        note = 'inside a filtered iteration'
+                    coll = al[0][1]
             fld = _field_of_param0(coll, fn)
             if fld is None:
                 note = 'inside a loop over %s' % vstr(coll)[:60]
@@ -616,6 +684,7 @@ def argv_model(prog, sl, fn):
         guards, loop, note = context(e)
         issues = issues_of.get(id(e), [])
         kind = 'args' if iterable else 'arg'
+        payload = norm_elements(sl, payload)
         if not iterable:
             cs = [_Contribution(payload, None, [])]
         else:
@@ -973,6 +1042,7 @@ class Verdict:
         self.field = None
         self.mode = None          # 'set' | 'add'
         self.op = None
+        self.loop_param = None    # the iterable parameter whose elements are stored one by one in a loop (a bulk setter)
         self.slots = []           # per stored component ('0' key / '1' value / '' the element or value): (param, projection)
         self.where = '%s:%d' % (fn.file, fn.line)
 
@@ -1050,6 +1120,7 @@ def judge_setter(prog, sl, fn):
             if not _reached_on_every_return(E, e, ctx):
                 return V.bad('the loop over `%s` is not run on every path' % pname(fn, p))
             lp = p
+            V.loop_param = p
     elif not _reached_on_every_return(E, e):
         return V.bad('not stored on every path')
     call = e.call
@@ -1229,6 +1300,31 @@ def strict_guard_issues(E, sl, fn, e, ftypes):
     return out
 
 
+def elements_outside_loop(sl, fn, items):
+    """fields of which an *element* (`next()` of an iteration over the field) is emitted by a contribution that is not
+    made inside a loop over that field: only the first element reaches the command line.  -> [(field, item)]
+    (a collection handed over whole — `args(words)` — and the payload of an Option read through its iterator are not
+    element references)"""
+    ftypes = _struct_field_types(sl.prog, fn)
+    out = []
+    for it in items:
+        vals = getattr(it, 'vals', None) or []
+        for e, v in zip(it.elems, vals):
+            if v is None or (e[0] == 'field' and len(e) > 2 and e[2] == 'splat'):
+                continue
+            for x in walk(v):
+                if x[0] == 'call' and x[1] == IT + 'next' and len(x[2]) == 1:
+                    fld = _field_of_param0(x[2][0], fn)
+                    if fld is None or fld == it.loop:
+                        continue
+                    t = ftypes.get(fld, '')
+                    if t.startswith('std::option::Option<') and not _is_nested_collection(t):
+                        continue
+                    if (fld, it) not in out:
+                        out.append((fld, it))
+    return out
+
+
 def loop_exits_early(E, e):
     """a MIR loop around contribution e that can be left before its iterator is exhausted"""
     for i, kind, L, coll in loop_contexts(E, e):
@@ -1267,6 +1363,8 @@ def field_ref(v, fn):
             v = v[2][0]
         elif v[0] == 'call' and len(v[2]) == 1 and v[1].endswith(_LOSSLESS):
             v = v[2][0]
+        elif v[0] == 'agg' and v[1] == 'std::borrow::Cow' and len(v[3]) == 1:
+            v = v[3][0][1]      # `Cow::Borrowed(x)` / `Cow::Owned(x)` lend / hold x itself
         else:
             break
     f = _field_of_param0(v0, fn)
@@ -1435,8 +1533,51 @@ def extra_conditions(E, sl, e, cfg, fld):
     return out
 
 
+_MAP_OR_ELSE = ('std::result::Result::<T, E>::map_or_else', 'std::option::Option::<T>::map_or_else')
+_MAP_OR = ('std::result::Result::<T, E>::map_or', 'std::option::Option::<T>::map_or')
+
+
+def _returns_normally(sl, clv):
+    """the closure / function item can return (a handler that only panics produces no value)"""
+    if isinstance(clv, tuple) and clv and clv[0] in ('closure', 'fnitem'):
+        g = sl.prog.fns.get(clv[1])
+        if g is not None:
+            return bool(g.return_blocks())
+    return True
+
+
+def total_alternatives(sl, v, depth=0):
+    """the values a `match`-like combinator can produce: `r.map_or_else(d, f)` is `f(payload of r)` or — when the
+    handler d can return at all — `d(error)`; `r.map_or(x, f)` is `f(payload of r)` or x; anything else is itself"""
+    v0 = unconv(strip(v))
+    if depth < 4 and v0[0] == 'call' and v0[1] in _MAP_OR_ELSE and len(v0[2]) == 3:
+        r, d, f = v0[2]
+        ok = sl.apply_closure(f, (sl.mk_unwrap(r, 1),))
+        if ok is not None:
+            out = total_alternatives(sl, ok, depth + 1)
+            if _returns_normally(sl, d):
+                dv = sl.apply_closure(d, (('unknown', 'the error'),) if 'Result' in v0[1] else ())
+                out.append(dv if dv is not None else ('unknown', 'the value of the error handler'))
+            return out
+    if depth < 4 and v0[0] == 'call' and v0[1] in _MAP_OR and len(v0[2]) == 3:
+        r, x, f = v0[2]
+        ok = sl.apply_closure(f, (sl.mk_unwrap(r, 1),))
+        if ok is not None:
+            return total_alternatives(sl, ok, depth + 1) + [x]
+    return [v]
+
+
 def buildpack_argument(sl, a, cfg, pkg):
     """what one alternative of the argument of PackBuildCommand::buildpack is: ('ok', description) | ('bad', ..) | ('unknown', ..)"""
+    vs = [_buildpack_argument(sl, x, cfg, pkg) for x in total_alternatives(sl, a)]
+    for kind in ('bad', 'unknown'):
+        for v in vs:
+            if v[0] == kind:
+                return v
+    return 'ok', ' | '.join(sorted({v[1] for v in vs}))
+
+
+def _buildpack_argument(sl, a, cfg, pkg):
     from .lib import value as _v
     v = unconv(strip(a))
     while v[0] == 'agg' and len(v[3]) == 1:
